@@ -40,6 +40,9 @@ EXT_CORE = {
         ("rec6", dict(_REC, Template='"dsp"', UseInput="TRUE", Budget=6,
                       Prods='{"fld", "letr", "rec", "recupd", "recupd2", "asgf"}')),
         ("dsp2c5", {"Template": '"dsp2"', "UseInput": "FALSE", "Budget": 5, "Lits": "{1}", "Ops": '{"+", "*"}'}),
+        # stateful calls next to calls of a closure in one function (cursor bookkeeping around a call through a handle)
+        ("hofstate9", {"Template": '"hof"', "Budget": 9, "Lits": "{}", "Ops": '{"+"}', "Helpers": '{"counter", "lag"}',
+                       "Prods": '{"app"}'}),
         # the callee of an application is itself an expression with stateful call sites (mk(counter(1))(x))
         ("appstate6", {"Template": '"f"', "Budget": 6, "Lits": "{1}", "Ops": '{"+"}', "Helpers": '{"mk", "counter", "lag"}',
                        "Prods": '{"app", "now"}'}),
